@@ -135,6 +135,12 @@ def suite_transformed(ctx, res, n, extra=()):
             res.add_cex("paint.transformed returned an encoding whose gettransform() differs from the affine beyond 1e-9",
                         {"call": "nanoemoji.paint.transformed", "transform": t, "impl": real[i], "gettransform": c.get("gt")},
                         {"site": "transformed-denotes", "transform": t})
+        elif real[i].get("gt") is not None and c.get("gt") is not None and real[i]["gt"] != c["gt"]:
+            # the paint's own gettransform() (what traversal, clip boxes, COLRv0/glyf components and OT-SVG use) must be the
+            # transform the emitted OpenType paint denotes (Lean: Enc.gettransform, written from the COLR spec)
+            res.add_cex("gettransform() of the paint returned by paint.transformed is not the transform that paint denotes in COLR",
+                        {"call": "Paint.gettransform", "transform": t, "impl": real[i], "colr_meaning": c.get("gt")},
+                        {"site": "gettransform-meaning", "transform": t})
         elif not c.get("inrange", False):
             res.add_cex("paint.transformed emitted a value outside its OpenType field range",
                         {"call": "nanoemoji.paint.transformed", "transform": t, "impl": real[i]},
